@@ -68,8 +68,8 @@ def lookups : P (List (Nat × Option (Bytes × Bytes))) := do let n ← nat; man
 -- documents
 
 def inst : P Spec.Inst := do
-  let id ← bytes; let seq ← nat; let r ← bytes
-  pure { id := id, seq := seq, ref := r }
+  let id ← bytes; let seq ← nat; let r ← bytes; let rf ← bool
+  pure { id := id, seq := seq, ref := r, refFirst := rf }
 
 def insts : P (List Spec.Inst) := do let n ← nat; many inst n
 
